@@ -105,7 +105,7 @@ def hidden_state():
     return tuple(sorted(out))
 
 
-def bfs(make_pool, enabled, apply, canon, depth, on_step, max_states=200000):
+def bfs(make_pool, enabled, apply, canon, depth, on_step, max_states=200000, part=0, nparts=1):
     """Explicit-state BFS.  make_pool() -> fresh list of live objects (after pristine());
     enabled(pool) -> list of events; apply(pool, event) -> result object (appended to the pool by bfs);
     canon(pool) -> hashable; on_step(history, event, pool_before_canon, pool, result) records violations
@@ -128,6 +128,8 @@ def bfs(make_pool, enabled, apply, canon, depth, on_step, max_states=200000):
         for hist in frontier:
             pool = rebuild(hist)
             events = enabled(pool)
+            if d == 0 and nparts > 1:
+                events = [ev for i, ev in enumerate(events) if i % nparts == part]     # partition of the first layer across workers
             for ev in events:
                 pool = rebuild(hist)
                 before = canon(pool)
